@@ -14,8 +14,8 @@ CHECKS = {
              "and the extracted model (verdict compared), exhaustive over import relations of three 5-node trees in thorough, plus random/scanned trees; "
              "strict rules are additionally checked against an independent executable reading of the documented semantics; the three public query functions are called directly "
              "and their result maps compared with the comprehension model and with the worklist model.",
-        note="Theorems cover the 12 verb x direction x except shapes with name / sub-modules-of filters; the two 'anything' aliases are tied to "
-             "'should_not ... except the subjects' by C12_alias on the model and by correspondence. The rule evaluation uses the comprehension-level queries; the worklist layer is proved equal to them and both are compared with the real query functions. Trusted: Coq kernel, extraction, driver, harness.",
+        note="Theorems cover the 12 verb x direction x except shapes with name / sub-modules-of filters on the strict domain and the two 'anything' aliases for pairwise unrelated subjects (C01_alias_verdict); "
+             "rules with related subjects/objects are covered by the algebra laws (C11, C12, C15) on the model and by correspondence. The rule evaluation uses the comprehension-level queries; the worklist layer is proved equal to them and both are compared with the real query functions. Trusted: Coq kernel, extraction, driver, harness.",
         technique="Coq proof (query characterisation lemmas + bucket analysis + worklist-loop refinement) + model/implementation correspondence",
         design="5/C01"),
     "C03": dict(
